@@ -188,11 +188,13 @@ class Emitter:
                 v = self.e(ex)
                 k = self.e(tgt[2])
                 if T:
-                    tv, tk = self.tmp(), self.tmp()
+                    # python: value, then the container, then the index
+                    tv, to, tk = self.tmp(), self.tmp(), self.tmp()
                     self.w(f"{tv} = {v}")
+                    self.w(f"{to} = {tgt[1]}")
                     self.w(f"{tk} = {k}")
                     self.w(
-                        f"{tgt[1]}[{tk}] = T.b(_A, '{tgt[1]}[%r]' % ({tk},), {tv})"
+                        f"{to}[{tk}] = T.b(_A, '{tgt[1]}[%r]' % ({tk},), {tv})"
                     )
                 else:
                     self.w(f"{tgt[1]}[{k}] = {v}")
